@@ -24,6 +24,7 @@ RULE = (
     "normalised event log (pull/eos/call+args/yield/end, in order) == log of the stdlib twin driven j steps. "
     "Non-trivial: (>=2 sources or >=1 callable) and at least one event; distinct = distinct "
     "(tool, flavours, key sequences, callables, parameters, j) tuples by 64-bit hash."
+    " Extensions of rounds 9-12: containers that really start over when iterated again; nested chains, re-split tee children; regular generator sources read on by their owner."
 )
 COMPONENTS = COMPONENTS_BASE
 ASSUMPTIONS = [
